@@ -1,12 +1,14 @@
 import ApolloModel.Model.Proto
 import ApolloModel.Model.TypedDoc
 import Driver.D20
+import Driver.D17
+import ApolloModel.Model.TypedVars
 open Apollo Apollo.Proto Apollo.Standalone Apollo.Typed
 namespace Driver
 
 /-! schema tables written by harness/src/p18.rs: `R q m s`, `T name kind nfields (fname defid innerTy)*` -/
 
-def pFieldDef (ts : Toks) : Option ((Name × FDef) × Toks) := do
+def pFieldDef (ts : Toks) : Option ((Standalone.Name × FDef) × Toks) := do
   let (n, ts) ← pNat ts
   let (i, ts) ← pNat ts
   let (t, ts) ← pNat ts
@@ -34,6 +36,18 @@ def c18 (stream : String) (fs : List String) : String :=
   | "c18.typed", [schema, doc] =>
     match pTSchema { types := [], query := none, mutation := none, subscription := none } (toks schema), pDefs (toks doc) with
     | some s, some ast => dumpDoc (buildDocT s ast)
+    | _, _ => "bad-case"
+  | "c18.opvars", [schema, doc] =>
+    -- per operation of the built document (anonymous first, then named): the variables written in the arguments and
+    -- directives of the fields `all_fields` yields, sorted, without repetition
+    let st := ((String.ofList (decodeField schema)).splitOn " ").filter (· ≠ "")
+    let dt := ((String.ofList (decodeField doc)).splitOn " ").filter (· ≠ "")
+    match Fam.schema st, Fam.rdefs (dt.length + 2) dt with
+    | some s, some ast =>
+      let built := Apollo.ExecRules.build s ast
+      ";".intercalate (built.ops.map fun o =>
+        let vs := ((Apollo.ExecRules.opFieldVars built o).mergeSort (fun a b => decide (a ≤ b))).eraseDups
+        (o.name.getD "-") ++ ":" ++ ",".intercalate vs)
     | _, _ => "bad-case"
   | _, _ => "unknown-stream"
 
